@@ -27,11 +27,19 @@ func c12PickDenoms() {
 }
 
 // c12Addr: account i. With the harness parameter longaddr=1 account 1 is a 32-byte address (module-derived / interchain
-// accounts are) whose last 20 bytes are account 0's address: distinct accounts that a 20-byte view would confuse.
+// accounts are) whose last 20 bytes are account 0's address: distinct accounts that a 20-byte view would confuse. With
+// longaddr=2 all accounts are 32-byte addresses that share their first 20 bytes.
 func c12Addr(i int) sdk.AccAddress {
 	b := make([]byte, 20)
 	b[0] = byte(0xA0 + i)
 	b[19] = byte(i + 1)
+	if zz.ParamInt("longaddr", 0) == 2 {
+		// every account is a 32-byte address and all of them agree on their first 20 bytes
+		l := make([]byte, 32)
+		copy(l, []byte("same-first-20-bytes!"))
+		l[31] = byte(i + 1)
+		return sdk.AccAddress(l)
+	}
 	if i == 1 && zz.ParamInt("longaddr", 0) == 1 {
 		return sdk.AccAddress(append([]byte("derived-acct"), c12Addr(0)...))
 	}
